@@ -34,8 +34,11 @@ func (obj *Mixture) EmStep(mixture1, mixture2 *Mixture, data MixtureDataSet, met
     tmp[threadIdx].init = false
   }
   counts := data.GetCounts()
+  verifHook("em.begin", len(tmp), data.GetN(), false, 0.0)
   // compute gamma temporaries
   if err := p.AddRangeJob(0, data.GetN(), g, func(l int, p ThreadPool, erf func() error) error {
+    verifHook("em.job.start", p.GetThreadId(), l, tmp[p.GetThreadId()].init, tmp[p.GetThreadId()].likelihood)
+    defer func() { verifHook("em.job.end", p.GetThreadId(), l, tmp[p.GetThreadId()].init, tmp[p.GetThreadId()].likelihood) }()
     gammaTmp   := tmp[p.GetThreadId()].gammaTmp
     gamma      := tmp[p.GetThreadId()].gamma
     logWeights := tmp[p.GetThreadId()].logWeights
@@ -94,6 +97,7 @@ func (obj *Mixture) EmStep(mixture1, mixture2 *Mixture, data MixtureDataSet, met
   if err := p.Wait(g); err != nil {
     return math.Inf(-1), nil
   }
+  verifHook("em.wait.return", 0, -1, false, 0.0)
   if tmp[0].logWeights != nil {
     // set weights to zero
     mixture1.LogWeights.Map(func(x Scalar) { x.SetFloat64(math.Inf(-1)) })
@@ -119,12 +123,14 @@ func (obj *Mixture) EmStep(mixture1, mixture2 *Mixture, data MixtureDataSet, met
     tmp[0].likelihood = 0.0
     tmp[0].init       = true
   }
+  verifHook("em.merge", 0, -1, true, tmp[0].likelihood)
   // collect gamma results
   for threadIdx := 1; threadIdx < p.NumberOfThreads(); threadIdx++ {
     if tmp[threadIdx].init == false {
       // this thread was never used
       continue
     }
+    verifHook("em.merge", threadIdx, -1, true, tmp[threadIdx].likelihood)
     t2 := NullFloat64()
     for i := 0; i < len(tmp[0].gamma); i++ {
       for j := 0; j < tmp[0].gamma[i].Dim(); j++ {
@@ -136,5 +142,6 @@ func (obj *Mixture) EmStep(mixture1, mixture2 *Mixture, data MixtureDataSet, met
     tmp[0].likelihood += tmp[threadIdx].likelihood
   }
 
+  verifHook("em.end", 0, -1, true, tmp[0].likelihood)
   return tmp[0].likelihood, nil
 }
